@@ -13,6 +13,7 @@ package main
 
 import (
 	"bufio"
+	"bytes"
 	"context"
 	"encoding/json"
 	"fmt"
@@ -21,12 +22,14 @@ import (
 	"os/exec"
 	"sort"
 	"strings"
+	"sync/atomic"
 	"time"
 
 	"github.com/synnaxlabs/synnax/pkg/distribution/ontology"
 	"github.com/synnaxlabs/x/errors"
 	"github.com/synnaxlabs/x/gorp"
 	"github.com/synnaxlabs/x/graph"
+	"github.com/synnaxlabs/x/kv"
 	"github.com/synnaxlabs/x/kv/memkv"
 	"github.com/synnaxlabs/x/query"
 	"github.com/synnaxlabs/x/validate"
@@ -51,6 +54,8 @@ type tcase struct {
 	ID  int   `json:"id"`
 	Ops []op  `json:"ops"`
 	Ids []idj `json:"ids"`
+	// Scan selects the flavour whose relationship indexes failed to populate at open
+	Scan bool `json:"scan"`
 }
 
 type qres struct {
@@ -79,6 +84,40 @@ type result struct {
 	Crash string `json:"crash"`
 	At    int    `json:"at"`
 	AtErr string `json:"at_err"`
+}
+
+// faultyDB fails the first iterator opened directly against the DB (not through a
+// transaction) over the ontology Relationship table. That iterator is the one the table
+// uses to populate its secondary indexes at open, so the by-To index stays invalid and the
+// ParentsTraverser runs on its raw sequential-scan fallback for the whole case.
+type faultyDB struct {
+	kv.DB
+	failed atomic.Bool
+}
+
+func (f *faultyDB) OpenIterator(opts kv.IteratorOptions) (kv.Iterator, error) {
+	if bytes.Contains(opts.LowerBound, []byte("Relationship")) && f.failed.CompareAndSwap(false, true) {
+		return nil, errors.New("injected I/O error while opening iterator")
+	}
+	return f.DB.OpenIterator(opts)
+}
+
+// openDB returns the gorp DB of a case and, for the scan-fallback flavour, a function that
+// waits until the injected fault has been consumed by the background index population.
+func openDB(scan bool) (*gorp.DB, func()) {
+	if !scan {
+		return gorp.Wrap(memkv.New()), func() {}
+	}
+	f := &faultyDB{DB: memkv.New()}
+	return gorp.Wrap(f), func() {
+		deadline := time.Now().Add(10 * time.Second)
+		for !f.failed.Load() {
+			if time.Now().After(deadline) {
+				panic("relationship index population never opened an iterator")
+			}
+			time.Sleep(200 * time.Microsecond)
+		}
+	}
 }
 
 func class(err error) string {
@@ -158,13 +197,14 @@ func runCase(c tcase, prog func(k int, e string)) (res result) {
 		}
 	}()
 	ctx := context.Background()
-	db := gorp.Wrap(memkv.New())
+	db, waitFault := openDB(c.Scan)
 	defer func() { _ = db.Close() }()
 	otg, err := ontology.Open(ctx, ontology.Config{DB: db})
 	if err != nil {
 		panic(err)
 	}
 	defer func() { _ = otg.Close() }()
+	waitFault()
 	var tx gorp.Tx
 	defer func() {
 		if tx != nil {
@@ -197,6 +237,18 @@ func runCase(c tcase, prog func(k int, e string)) (res result) {
 				to = append(to, b.id())
 			}
 			e = w.DefineFromOneToManyRelationships(ctx, o.A.id(), ontology.RelationshipType(o.Ty), to)
+		case "delmany":
+			ids := make([]ontology.ID, 0, len(o.Bs))
+			for _, b := range o.Bs {
+				ids = append(ids, b.id())
+			}
+			e = w.DeleteManyResources(ctx, ids)
+		case "defmanyres":
+			ids := make([]ontology.ID, 0, len(o.Bs))
+			for _, b := range o.Bs {
+				ids = append(ids, b.id())
+			}
+			e = w.DefineManyResources(ctx, ids)
 		case "delrel":
 			e = w.DeleteRelationship(ctx, o.A.id(), ontology.RelationshipType(o.Ty), o.B.id())
 		case "begin":
